@@ -72,6 +72,10 @@ type AdItem struct {
 	Feat     int  `json:"feat"` // index into Feats, or -1 for an unknown feature
 	Unknown  int  `json:"unknown,omitempty"`
 	Children bool `json:"children,omitempty"`
+	// Alias: the element is NOT feature Feat, it only looks like it: "local" =
+	// the feature's namespace with another local name, "space" = the feature's
+	// local name in another namespace.
+	Alias string `json:"alias,omitempty"`
 }
 
 // Sel is one selection intent of the peer (receiver cases); it is resolved
@@ -243,6 +247,11 @@ func genSession(r *rand.Rand, role string, ws, tee bool, feats []Feat) *Cfg {
 			if len(ad) > 0 && r.Intn(7) == 0 {
 				ad = append(ad, ad[r.Intn(len(ad))]) // duplicate
 			}
+			if r.Intn(4) == 0 {
+				// an element that shares only the namespace (or only the local name)
+				// with a configured feature: it does not advertise that feature
+				ad = append(ad, AdItem{Feat: r.Intn(n), Alias: []string{"local", "local", "space"}[r.Intn(3)], Children: r.Intn(4) == 0})
+			}
 			r.Shuffle(len(ad), func(a, b int) { ad[a], ad[b] = ad[b], ad[a] })
 		}
 		c.Ads = append(c.Ads, ad)
@@ -296,7 +305,9 @@ func gen(r *rand.Rand, index int) *Group {
 			// taken before STARTTLS
 			has := map[int]bool{}
 			for _, it := range c.Ads[0] {
-				has[it.Feat] = true
+				if it.Alias == "" {
+					has[it.Feat] = true
+				}
 			}
 			for _, j := range []int{0, 1} {
 				if !has[j] {
@@ -438,8 +449,11 @@ func (e *exec) onList(f *Feat) {
 	e.listCalls = append(e.listCalls, f)
 }
 
-func (e *exec) onParse(f *Feat) {
+func (e *exec) onParse(f *Feat, start *xml.StartElement) {
 	e.sample("Parse(" + f.Local + ")")
+	if start == nil || start.Name.Space != f.Space || start.Name.Local != f.Local {
+		e.violate(2, "foreign-element-parsed", "Parse of %s {%s}%s was handed the element %v", f.Local, f.Space, f.Local, start)
+	}
 	e.logf("cb Parse(%s) state=%s", f.Local, stateStr(e.prev))
 	e.seq = append(e.seq, "P"+f.Local)
 	e.c.Count("parse_calls", 1)
@@ -507,7 +521,8 @@ func (e *exec) onNegotiate(f *Feat, s *xmpp.Session, data any) (xmpp.SessionStat
 			e.violate(2, class, "Negotiate(%s) called but the feature is in no features list of the current stream (lists on this session: %d)", f.Local, e.nLists)
 		}
 	} else if !inLast {
-		e.c.Count("negotiated_from_older_list_of_stream", 1)
+		// the library works from the latest list only
+		e.violate(2, "not-in-current-list", "Negotiate(%s) called but no element with exactly the feature's name is in the current features list (it was in an earlier list of this stream)", f.Local)
 	}
 	if forced {
 		e.forced++
@@ -673,7 +688,7 @@ func buildFeatures(feats []Feat) []xmpp.StreamFeature {
 				return f.Req, w.EncodeToken(start.End())
 			},
 			Parse: func(ctx context.Context, d *xml.Decoder, start *xml.StartElement) (bool, any, error) {
-				from(ctx).onParse(f)
+				from(ctx).onParse(f, start)
 				if err := d.Skip(); err != nil {
 					return f.Req, nil, err
 				}
@@ -936,6 +951,22 @@ func (e *exec) initiatorScript(written []byte) ([]byte, bool) {
 			continue
 		}
 		f := &e.cfg.Feats[it.Feat]
+		if it.Alias != "" {
+			space, local := f.Space, "not-"+f.Local
+			if it.Alias == "space" {
+				space, local = f.Space+":other", f.Local
+			}
+			sb.WriteString(elemText(space, local, f.Req, it.Children))
+			e.c.Count("r2_lookalike_elements_advertised_same_"+map[string]string{"local": "namespace", "space": "local_name"}[it.Alias], 1)
+			real := false
+			for _, o := range ad {
+				real = real || (o.Feat == it.Feat && o.Alias == "")
+			}
+			if !real && !f.Info && elig(f, st) && !e.negotiated[f.Space] {
+				e.c.Count("r2_lookalike_of_eligible_feature_without_the_real_element", 1)
+			}
+			continue
+		}
 		sb.WriteString(elemText(f.Space, f.Local, f.Req, it.Children))
 		el := elig(f, st)
 		e.last[f.Space] = adEnt{f: f, eligAtAd: el}
@@ -1385,12 +1416,12 @@ func Prop() *core.Prop {
 	return &core.Prop{
 		ID:    "C01",
 		Level: core.Exploration,
-		Rule:  "each case configures 2-6 instrumented xmpp.StreamFeature values (PRNG masks over Secure/Authn, mandatory or voluntary, restarting or not, informational or negotiable, optional STARTTLS namespace, bind-like Ready, failing) and an initial state {0,Secure,Authn,Secure|Authn} x {c2s,s2s} x {TCP via xmpp.NewNegotiator, WebSocket via websocket.Negotiator}; even indexes run xmpp.NewSession four times against a scripted peer that advertises PRNG lists (subsets, orders, unknown, duplicate, ineligible, empty), odd indexes run xmpp.ReceiveSession against a peer sending fresh, unadvertised, repeated, informational, unknown and IQ-wrapped selections. 40% of the cases are groups of 2-4 sessions that share ONE Negotiator value and ONE []StreamFeature slice (sequentially, a quarter of them overlapping on goroutines; no race detector), a quarter of the cases set StreamConfig.TeeIn/TeeOut, restarting features may return a wrapper of their own around session.Conn() (which makes the negotiator re-install the tee), voluntary non-restarting features may carry Ready in their mask next to a mandatory feature, and 1/8 of the initiator cases are shaped tee + real-shaped STARTTLS + voluntary wrapping feature. Rules 1-8 of DESIGN.md 5/C01 are checked in the callbacks, on every write of the library and at constructor return. distinct = (role, framing, c2s/s2s, initial state, #features, #lists, #negotiations, #restarts, forced STARTTLS, refusal category, outcome).",
+		Rule:  "each case configures 2-6 instrumented xmpp.StreamFeature values (PRNG masks over Secure/Authn, mandatory or voluntary, restarting or not, informational or negotiable, optional STARTTLS namespace, bind-like Ready, failing) and an initial state {0,Secure,Authn,Secure|Authn} x {c2s,s2s} x {TCP via xmpp.NewNegotiator, WebSocket via websocket.Negotiator}; even indexes run xmpp.NewSession four times against a scripted peer that advertises PRNG lists (subsets, orders, unknown, duplicate, ineligible, empty, look-alike elements sharing only the namespace or only the local name of a feature), odd indexes run xmpp.ReceiveSession against a peer sending fresh, unadvertised, repeated, informational, unknown and IQ-wrapped selections. 40% of the cases are groups of 2-4 sessions that share ONE Negotiator value and ONE []StreamFeature slice (sequentially, a quarter of them overlapping on goroutines; no race detector), a quarter of the cases set StreamConfig.TeeIn/TeeOut, restarting features may return a wrapper of their own around session.Conn() (which makes the negotiator re-install the tee), voluntary non-restarting features may carry Ready in their mask next to a mandatory feature, and 1/8 of the initiator cases are shaped tee + real-shaped STARTTLS + voluntary wrapping feature. Rules 1-8 of DESIGN.md 5/C01 are checked in the callbacks, on every write of the library and at constructor return. distinct = (role, framing, c2s/s2s, initial state, #features, #lists, #negotiations, #restarts, forced STARTTLS, refusal category, outcome).",
 		Assumptions: []string{
 			"a feature is identified by its namespace (the library's caches are keyed that way); configured features have distinct namespaces and non-empty local names",
 			"Parse consumes its element and Negotiate on the receiving side consumes the selection element, as the built-in features do; callbacks do no other wire I/O",
 			"eligibility (rules 1, 4, 7, 8) is judged against Session.State() OR-ed with the monitor's own model of the state (initial state plus every mask returned by a successful Negotiate callback); State() lacking a model bit is itself reported (rule 5, stale-state)",
-			"rule 2 accepts any features list of the current stream as the advertisement; rule 7 counts a mandatory feature as pending only if it was eligible when advertised and still is at constructor return",
+			"rule 2: a feature is advertised only by an element with exactly its name (namespace and local name) in the current features list; rule 7 counts a mandatory feature as pending only if it was eligible when advertised and still is at constructor return",
 			"rule 2, other direction: when a negotiable STARTTLS-namespace feature is configured and eligible, the session is not secure and the first features list of the session does not advertise it, Negotiate of that feature must be the next callback (peer headers before a first list are always valid, so nothing can legitimately fail in between); on any later list such an attempt is a rule-2 violation",
 			"rule 6 also demands that a session is not reported established between a restart-requesting Negotiate and the fresh header, unless some Negotiate of that session put Ready into its own mask (the library takes a feature's Ready at its word)",
 			"an early-ready voluntary feature reports Ready only when at most one mandatory and no voluntary restarting feature of the library's cache is un-negotiated and the call is not the forced STARTTLS attempt, so the library can still reach the mandatory feature in the same list",
@@ -1428,6 +1459,9 @@ func Prop() *core.Prop {
 			"r2_later_list_without_starttls_after_tee_reinstall",
 			// restarts taken from lists without a mandatory feature; forced attempt vs
 			// arbitrary masks and initial states
+			// elements that share only a namespace / only a local name with a feature
+			"r2_lookalike_elements_advertised_same_namespace", "r2_lookalike_elements_advertised_same_local_name",
+			"r2_lookalike_of_eligible_feature_without_the_real_element",
 			"r6_restart_from_list_without_mandatory_initiator", "r6_restart_from_list_without_mandatory_receiver",
 			"r6_forced_starttls_restart_from_list_without_mandatory",
 			"runs_initial_state_Authn", "r1_forced_starttls_must_not_run",
